@@ -170,10 +170,14 @@ func Excluded(rules []Rule, name string) bool {
 	base := path.Base(name)
 	for _, r := range rules {
 		var m bool
-		if strings.Contains(r.Pattern, "/") {
-			m = r.Pattern == name
+		pat := r.Pattern
+		// a trailing slash restricts a rule to directories; generators only
+		// use it for names that nothing but directories bear
+		pat = strings.TrimSuffix(pat, "/")
+		if strings.Contains(pat, "/") {
+			m = pat == name
 		} else {
-			m = r.Pattern == base
+			m = pat == base
 		}
 		if m {
 			return !r.Include
